@@ -84,7 +84,22 @@ AssignTwo(v, w) ==                             \* a=(v w)
   /\ m' = (0 :> v) @@ (1 :> w) /\ list' = <<v, w>> /\ ix' = <<>>
   /\ Edge("assign2", <<v, w>>, Rep(<<v, w>>, <<>>))
 
-Next == \/ \E k \in Idx, v \in Vals : Set(k, v)
+\* a+=v with a plain string: appends to element 0, creating it if unset.  TLA+ strings are atomic, so
+\* concatenation is a table; only element 0 can ever hold a two-character value.
+Cat(a, b) == CASE a = "" -> b [] b = "" -> a
+               [] a = "x" /\ b = "x" -> "xx" [] a = "x" /\ b = "y" -> "xy"
+               [] a = "y" /\ b = "x" -> "yx" [] a = "y" /\ b = "y" -> "yy"
+AppendStr(v) ==
+  LET cur == IF 0 \in DOMAIN m THEN m[0] ELSE "" IN
+  /\ cur \in Vals /\ v # ""
+  /\ DOMAIN m # {}            \* on an unset name, a+=v creates a scalar, which is outside this model
+  /\ LET nv == Cat(cur, v)
+         r  == SetRepOf(list, ix, 0, nv) IN
+     /\ m' = MapSet(m, 0, nv) /\ list' = r.list /\ ix' = r.ix
+     /\ Edge("appendstr", <<v>>, r)
+
+Next == \/ \E v \in Vals : AppendStr(v)
+        \/ \E k \in Idx, v \in Vals : Set(k, v)
         \/ \E k \in Idx : Unset(k)
         \/ \E n \in 1..2, v \in Vals : SetNeg(n, v)
         \/ \E v \in Vals : AppendElem(v)
